@@ -142,16 +142,24 @@ def lean_stage(prop, tier, log):
         # audit
         names = [t['name'] for t in st.obligations]
         if names:
-            audit_src = ''.join('import %s\n' % m for m in modules)
-            audit_src += ''.join('#print axioms %s\n' % n for n in names)
-            fd, audit_path = tempfile.mkstemp(suffix='.lean', prefix='Audit_%s_' % prop, dir=LEAN_DIR)
-            with os.fdopen(fd, 'w') as f:
-                f.write(audit_src)
-            try:
-                rc, out = run_cmd(['lake', 'env', 'lean', audit_path], cwd=LEAN_DIR)
-            finally:
-                os.unlink(audit_path)
-            axioms = parse_axioms(out)
+            # module by module, so that one module that no longer builds only takes its own theorems with it
+            axioms, outs = {}, []
+            for m in modules:
+                if not st.build_ok:
+                    rc_m, _ = run_cmd(['lake', 'build', m], cwd=LEAN_DIR)
+                    if rc_m != 0:
+                        continue
+                audit_src = 'import %s\n' % m + ''.join('#print axioms %s\n' % n for n in names)
+                fd, audit_path = tempfile.mkstemp(suffix='.lean', prefix='Audit_%s_' % prop, dir=LEAN_DIR)
+                with os.fdopen(fd, 'w') as f:
+                    f.write(audit_src)
+                try:
+                    rc, out = run_cmd(['lake', 'env', 'lean', audit_path], cwd=LEAN_DIR)
+                finally:
+                    os.unlink(audit_path)
+                outs.append(out)
+                axioms.update(parse_axioms(out))
+            out = st.build_log + '\n'.join(outs)
             for n in names:
                 if n not in axioms:
                     st.broken.append({'name': n, 'why': 'theorem missing or does not check: ' + first_error(out, n)})
